@@ -1,8 +1,7 @@
 (** Entry point of the extracted model driver: one case line in, one result line out.
     The first token selects the operation. *)
-From Lisp Require Import Wire Equal Boot Binder Arena Scanner Reader Printer Preamble.
+From Lisp Require Import Wire Equal Boot Binder Arena Scanner Reader Printer Preamble RunConc.
 
-Definition bad : list N := s_ "BADCASE".
 
 Definition run_equal (ts : list tok) : list N :=
   match parse_values 2 ts with
@@ -44,15 +43,6 @@ Definition run_program (ts : list tok) : list N :=
 Definition ty_of_code (z : Z) : ty :=
   if Z.eqb z 1 then TAny else if Z.eqb z 2 then TInt else if Z.eqb z 3 then TString
   else if Z.eqb z 4 then TVector else if Z.eqb z 5 then TBool else TOtherTy.
-
-Fixpoint take_zs (n : nat) (ts : list tok) : option (list Z * list tok) :=
-  match n with
-  | O => Some ([], ts)
-  | S n' => match ts with
-            | TNum z :: r => match take_zs n' r with Some (l, r') => Some (z :: l, r') | None => None end
-            | _ => None
-            end
-  end.
 
 Definition run_binder (ts : list tok) : list N :=
   match ts with
@@ -369,6 +359,8 @@ Definition run_tokens (ts : list tok) : list N :=
       else if N.eqb c (tagc "D") then run_stepper r
       else if N.eqb c (tagc "Y") then run_read_preamble r
       else if N.eqb c (tagc "X") then run_read_print_read r
+      else if N.eqb c (tagc "N") then run_atoms_history r
+      else if N.eqb c (tagc "F") then run_future_history r
       else bad
   | _ => bad
   end.
